@@ -234,7 +234,7 @@ func (w *world) bsigs(shape int, creator int) ([]hg.BlockSignature, bool, int) {
 		for i, n := 0, 2+w.rng.Intn(8); i < n; i++ {
 			l = append(l, w.bsig(me, -1))
 		}
-		l = append(l, w.bsig(me, w.rng.Intn(8))) // arbitrary (valid UTF-8) signature strings too
+		// arbitrary signature strings are refused by Event.Verify since /repo bc8842f (block signatures must decode)
 		return l, true, 0
 	case 4:
 		return []hg.BlockSignature{w.bsig(me, -1), w.bsig(w.pubs[(creator+1)%nKeys], -1)}, false, 0
